@@ -376,6 +376,15 @@ func closureWrites(mc *ssa.MakeClosure, a *ssa.Alloc) bool {
 				}
 			case *ssa.UnOp:
 			case *ssa.DebugRef:
+			case *ssa.FieldAddr:
+				// reading a field of the captured struct is not a write
+				for _, rr := range *u.Referrers() {
+					switch rr.(type) {
+					case *ssa.UnOp, *ssa.DebugRef:
+					default:
+						return true
+					}
+				}
 			default:
 				return true
 			}
@@ -451,9 +460,10 @@ func StructLitFields(a *ssa.Alloc) (map[string]ssa.Value, bool) {
 }
 
 func (d *D) structLit(a *ssa.Alloc) string {
-	if a.Heap {
+	if a.Heap && (a.Comment == "complit" || a.Comment == "new" || a.Comment == "" || capturedAndWritten(a)) {
 		// a heap object (e.g. c := &T{...} later mutated field by field) is an
-		// identity, not a value: do not expand it
+		// identity, not a value: do not expand it. A struct *variable* that lives on
+		// the heap only because a closure reads it is still the literal it was given.
 		return ""
 	}
 	if d.inLit[a] {
@@ -1041,4 +1051,24 @@ func topLevelOpenBrace(s string) int {
 		return -1
 	}
 	return i
+}
+
+// capturedAndWritten: some closure capturing the variable may write it, or its
+// address is passed to a call.
+func capturedAndWritten(a *ssa.Alloc) bool {
+	for _, r := range *a.Referrers() {
+		switch u := r.(type) {
+		case *ssa.MakeClosure:
+			if closureWrites(u, a) {
+				return true
+			}
+		case ssa.CallInstruction:
+			return true
+		case *ssa.Store:
+			if u.Val == ssa.Value(a) {
+				return true // address stored somewhere
+			}
+		}
+	}
+	return false
 }
